@@ -1495,6 +1495,9 @@ pub async fn run_conn(ctx: Rc<Ctx>, cmds: Vec<Value>) {
                     .and_then(Value::as_array)
                     .map(|a| a.iter().filter_map(Value::as_u64).map(|x| x as usize).collect())
                     .unwrap_or_default();
+                if let Some(k) = c.get("upto").and_then(Value::as_u64) {
+                    bytes.truncate(k as usize);
+                }
                 if peer_keep.is_some() {
                     ctx.emit(Ev::new("in_dropped"));
                 } else if cuts.is_empty() {
@@ -1587,7 +1590,8 @@ pub async fn run_conn(ctx: Rc<Ctx>, cmds: Vec<Value>) {
                 if let Some(j) = c.get("j").and_then(Value::as_i64) {
                     let mut hs: Vec<i64> = ctx.gates.borrow().keys().copied().collect();
                     hs.sort_unstable();
-                    h = hs.get(j as usize).copied().unwrap_or(0);
+                    // j = 99: the newest gate
+                    h = if j == 99 { hs.last().copied().unwrap_or(0) } else { hs.get(j as usize).copied().unwrap_or(0) };
                 }
                 let tx = ctx.gates.borrow_mut().remove(&h);
                 if let Some(tx) = tx {
@@ -1749,6 +1753,31 @@ pub async fn run_conn(ctx: Rc<Ctx>, cmds: Vec<Value>) {
                     }
                 }
                 ctx.emit(Ev::new("settled").s(pending).n(rounds).r(snd.receipts.len() as i64));
+            }
+            "pollall" => {
+                // poll every sender future the harness still holds until none makes progress
+                for _ in 0..32 {
+                    let mut keys: Vec<i64> =
+                        snd.slots.iter().filter(|(_, sl)| sl.fut.is_some()).map(|(k, _)| *k).collect();
+                    keys.sort_unstable();
+                    let before = keys.len();
+                    for k in keys {
+                        poll_slot(&ctx, &mut snd, k);
+                    }
+                    idle().await;
+                    peer.drain(&ctx);
+                    let after = snd.slots.values().filter(|sl| sl.fut.is_some()).count();
+                    if after == before || after == 0 {
+                        break;
+                    }
+                }
+                let mut pending: i64 = 0;
+                for (k, sl) in &snd.slots {
+                    if sl.fut.is_some() && (0..60).contains(k) {
+                        pending |= 1 << k;
+                    }
+                }
+                ctx.emit(Ev::new("pollall_done").s(pending).r(snd.receipts.len() as i64));
             }
             "drain" => {
                 // open every gate (outcome ok) until no gate is left; then report what the
